@@ -170,6 +170,10 @@ def cmd_check(args):
     exit_code = EXIT_OK
     known_out = []
     n_new = 0
+    for fid, n in sorted(total["known"].items()):
+        f = next(x for x in findings if x["id"] == fid)
+        print(f"KNOWN-FINDING: property={prop} {fid}: {f['what']} ({n} runs)", flush=True)
+        known_out.append({"id": fid, "runs": n})
     for sigkey in sorted(groups):
         vs = groups[sigkey]
         sig = json.loads(sigkey)
